@@ -148,6 +148,11 @@ func (c exactEqualsComparator) lineStringsEq(ls1, ls2 LineString) bool {
 	}
 
 	// Finally, check if the rings are the same once rotated.
+	// Rotation treats the first and last point of each ring as one vertex, so
+	// they have to coincide in all dimensions (IsRing only checks XY).
+	if !c.eq(c1.Get(0), c1.Get(n-1)) || !c.eq(c2.Get(0), c2.Get(n-1)) {
+		return false
+	}
 	for o := 1; o < n; o++ {
 		offset := func(i int) int {
 			return (i + o) % (n - 1)
